@@ -163,7 +163,16 @@ def run_twins(ctx, rep, select, floors=None):
         a, b = by_name.get(name), by_name.get(other)
         if a is None or b is None:
             if ctx.meta.get('corpus_failed'):
-                # a corpus family does not compile against the current tree (C15 reports that): the pair cannot be compared
+                # a corpus family does not compile against the current tree: a program documented to be equivalent to its twin is
+                # rejected (one report per family, naming the first compiler error)
+                crate = sp.get('crate')
+                ocrate = next((v.get('crate') for k_, v in spec.items() if v['name'] == other), None)
+                for cnm in {crate, ocrate} & set(ctx.meta['corpus_failed']):
+                    if ('twinfam', cnm) not in ctx._cache:
+                        ctx._cache[('twinfam', cnm)] = True
+                        rep.viol('T', 'corpus family ' + cnm, 'twin-program-rejected',
+                                 'programs of this family - each documented to be equivalent to a twin - no longer compile: ' +
+                                 (ctx.meta.get('corpus_first_error', {}).get(cnm) or 'see stderr'))
                 rep.notes.append('twin pair %s / %s not compared: its corpus family does not compile' % (name, other))
                 continue
             raise Broken('twin pair %s / %s: program missing from the corpus facts' % (name, other))
